@@ -101,10 +101,154 @@ def reuse_witness(ctx):
 
 
 def run_instance(inst):
+    if inst[0] == 'step':
+        return run_step(inst)
     if inst[0] == 'reuse':
         from symx import gabs
         return gabs.run(inst[1:], reuse_claims, reuse_witness)
     return run_instance_fresh(inst)
+
+
+def run_step(inst):
+    """S - inductive step: an arbitrary well-formed emitting column t-1 (which states are present, their scores, a common chain
+    length) is constructed directly, ONE real _match_states(t) is executed, and column t is compared with the documented
+    recurrence  col_t[s] = max over admissible (p -> s) of col_{t-1}[p] + trans(p, s) + em(s, t).  Covers traces of any length."""
+    from leuvenmapmatching.matcher.base import LatticeColumn
+    from leuvenmapmatching.util.segment import Segment
+    from symx.absmap import P, key_ps
+    _, name, g, kw, length = inst[:5]
+    budget = inst[5] if len(inst) > 5 else None
+    cfg = Cfg(ne=False, T=2, **kw)
+    AbsMap = make_absmap_class()
+    shims.install()
+    iname = f"step {name} {cfg.describe()} chain_length={length}"
+
+    def scenario():
+        eng = E.get_engine()
+        mp = AbsMap(g)
+        mt = make_matcher(eng, mp, cfg)
+        path = obs_path(2)
+        mt.path = path
+        mt.lattice = {0: LatticeColumn(0), 1: LatticeColumn(1)}
+        orc = Oracle(mp, mt, cfg)
+        pre = {}
+        for st in orc.states():
+            tag = orc.label(st)
+            if not eng.decide(z3.Bool(f"present_{tag}")):
+                continue
+            lp = z3.Real(f"lp_{tag}")
+            eng.assume(lp <= 0)
+            if isinstance(st, tuple):
+                u, v = st
+                k = key_ps("o0", f"n{u}", f"n{v}")
+                em = Segment(u, mp.loc[u], v, mp.loc[v], P("proj:" + k), mp.t(k))
+                dist = mp.sq(k)
+            else:
+                em = Segment(st, mp.loc[st])
+                dist = mp.distance(path[0], mp.loc[st])
+            m = mt.matching(mt, em, Segment("O0", path[0]), logprob=E.Sym(lp), logprobe=E.Sym(lp), logprobne=0, obs=0,
+                            length=length, dist_obs=dist)
+            mt.lattice[0].upsert(m)
+            pre[st] = lp
+        mt._match_states(1)
+        return dict(mp=mp, mt=mt, pre=pre, orc=orc)
+
+    def claims(eng, v):
+        mt, pre, orc = v['mt'], v['pre'], v['orc']
+        col = mt.lattice[1].o[0] if mt.lattice[1].o else {}
+        cl = []
+        for st in orc.states():
+            key = (st[0], st[1], 1, 0) if isinstance(st, tuple) else (st, 1, 0)
+            cands = []
+            for p_, lp in pre.items():
+                if st in orc.succ(p_):
+                    sc = lp + orc.trans(p_, st, 1) + orc.em(st, 1)
+                    strict = z3.And(orc.is_state_at(st, 1), orc.dist_ok(st, 1), orc.prob_ok(sc, length + 1, TOL))
+                    loose = z3.And(orc.is_state_at(st, 1), orc.dist_ok(st, 1), orc.prob_ok(sc, length + 1, -TOL))
+                    cands.append((p_, sc, strict, loose))
+            tag = orc.label(st)
+            if key in col:
+                m = col[key]
+                got = E.lift(m.logprob)
+                cl.append((f'entry_{tag}_has_an_admissible_predecessor_score',
+                           z3.Or(*[z3.And(lo, got <= sc + TOL, got >= sc - TOL) for _, sc, _, lo in cands]) if cands else z3.BoolVal(False)))
+                cl.append((f'entry_{tag}_is_the_maximum', z3.And(*[z3.Implies(stx, got >= sc - TOL) for _, sc, stx, _ in cands]) if cands else z3.BoolVal(True),
+                           z3.And(*[z3.Implies(z3.And(orc.is_state_at(st, 1), orc.dist_ok_margin(st, 1), orc.prob_ok(sc, length + 1, z3.Q(1, 1000))), got >= sc - z3.Q(1, 1000)) for _, sc, stx, _ in cands]) if cands else None))
+                pk = [q.shortkey for q in m.prev]
+                ok = len(pk) == 1 and pk[0] in pre and st in orc.succ(pk[0]) and m.length == length + 1 and not m.stop
+                cl.append((f'entry_{tag}_bookkeeping (prev={pk}, length={m.length})', z3.BoolVal(bool(ok))))
+                if ok:
+                    best = [sc for p_, sc, _, _ in cands if p_ == pk[0]][0]
+                    cl.append((f'entry_{tag}_score_belongs_to_its_recorded_predecessor', z3.And(got <= best + TOL, got >= best - TOL)))
+            else:
+                robust = [z3.And(orc.is_state_at(st, 1), orc.dist_ok_margin(st, 1), orc.prob_ok(sc, length + 1, z3.Q(1, 1000))) for _, sc, _, _ in cands]
+                cl.append((f'no_entry_{tag}_means_no_admissible_candidate', z3.And(*[z3.Not(stx) for _, _, stx, _ in cands]) if cands else z3.BoolVal(True),
+                           z3.And(*[z3.Not(x) for x in robust]) if cands else None))
+        extra = [k for k in col if (tuple(k[:-2]) if len(k) == 4 else k[0]) not in orc.states()]
+        cl.append(('no_entries_outside_the_state_space', z3.BoolVal(not extra)))
+        return cl
+
+    def confirm(eng, model, v, cname):
+        # concrete replay: the same column on a table map with plain floats
+        from symx.absmap import ModelTable, eval_under
+        TableMap = make_tablemap_class()
+        table = ModelTable(model)
+        thr = threshold_values(model, cfg)
+        pre = {st: E.model_value(model, lp) for st, lp in v['pre'].items()}
+        with shims.concrete():
+            mp = TableMap(g, table, default=0.0)
+            mt = make_matcher(None, mp, cfg)
+            concrete_thresholds(mt, cfg, thr)
+            path = obs_path(2)
+            mt.path = path
+            mt.lattice = {0: LatticeColumn(0), 1: LatticeColumn(1)}
+            orc = Oracle(mp, mt, cfg)
+            for st, lp in pre.items():
+                if isinstance(st, tuple):
+                    u, w = st
+                    k = key_ps("o0", f"n{u}", f"n{w}")
+                    em = Segment(u, mp.loc[u], w, mp.loc[w], P("proj:" + k), table.get('t:' + k))
+                    dist = table.get('d:' + k)
+                else:
+                    em, dist = Segment(st, mp.loc[st]), mp.distance(path[0], mp.loc[st])
+                mt.lattice[0].upsert(mt.matching(mt, em, Segment("O0", path[0]), logprob=lp, logprobe=lp, logprobne=0, obs=0, length=length, dist_obs=dist))
+            try:
+                mt._match_states(1)
+            except Exception as e:
+                return dict(desc=f"_match_states raised {type(e).__name__}: {e}", kind='step')
+            col = mt.lattice[1].o[0] if mt.lattice[1].o else {}
+            import math
+            bad = []
+            md = mt.max_dist
+            for st in orc.states():
+                key = (st[0], st[1], 1, 0) if isinstance(st, tuple) else (st, 1, 0)
+                cm = CModel(mp, cfg, path, max_dist=mt.max_dist, max_dist_init=mt.max_dist_init, min_logprob_norm=mt.min_logprob_norm)
+                best = None
+                for p_, lp in pre.items():
+                    if st in cm.succ(p_):
+                        d, _, ti = cm.geo(st, 1)
+                        if not cfg.only_edges and isinstance(st, tuple) and (abs(ti) <= 1e-8 or abs(ti - 1) <= 1e-8):
+                            continue
+                        sc = lp + cm.trans(p_, st, 1) + cm.em(st, 1)
+                        if d <= md - 1e-7 and sc / (length + 1) >= mt.min_logprob_norm + 1e-7:
+                            best = sc if best is None or sc > best else best
+                if best is not None and key not in col:
+                    bad.append(f"state {st}: admissible candidate with score {best} but no entry")
+                if best is not None and key in col and col[key].logprob < best - 1e-7:
+                    bad.append(f"state {st}: entry {col[key].logprob} < best admissible candidate {best}")
+            if bad:
+                return dict(desc='; '.join(bad[:3]), kind='step', graph=g, cfg=kw, pre={str(k): x for k, x in pre.items()}, thresholds=thr,
+                            table=dict(table.accessed))
+        return None
+
+    def witness(eng, v):
+        col = v['mt'].lattice[1].o[0] if v['mt'].lattice[1].o else {}
+        return ['step_entries_%d' % min(len(col), 2)] + (['step_two_predecessors_competed'] if any(len(m.prev_other) > 0 for m in col.values()) else [])
+
+    mk = runner.lra_engine(10000) if cfg.fam != 'dist' else runner.nra_engine(10000)
+    out = runner.explore(iname, mk, scenario, claims, confirm=confirm, witness=witness, budget_s=budget)
+    shims.uninstall()
+    return out
 
 
 def AbsEdges(g):
@@ -219,6 +363,14 @@ def main(tier):
     MDk = dict(sym_maxdist=True, sym_init=False, sym_minprob=False)
     reuse = [('reuse', gn, NAMED[gn], dict(fam=fam, T=2, ne=False, **MDk), [('match2', 2), ('match', 2)], {}, 60) for gn in ('oneway2', 'oneway3') for fam in ('simple', 'dist')]
     res += runner.merge_shards(run_instances(run_instance, reuse))
+    steps = []
+    for gn in (('oneway2', 'line2', 'oneway3', 'tri', 'fork') if tier == 'quick' else ('oneway2', 'line2', 'oneway3', 'tri', 'fork', 'line3', 'k3', 'oneway4', 'star')):
+        for fam in ('simple', 'dist', 'simple_n'):
+            if fam == 'simple_n' and gn not in ('oneway2', 'line2', 'oneway3'):
+                continue
+            for mode in ('md', 'mp'):
+                steps.append(('step', gn, NAMED[gn], dict(fam=fam, **MODES[mode]), 3, 60 if tier == 'quick' else 600))
+    res += run_instances(run_instance, steps)
     rep.bounds = dict(graphs="every digraph on <=3 nodes up to isomorphism" + (" with <=4 directed edges" if tier == 'quick' else "")
                              + ("; 4-node set fork,path4,sq,star,tri_chord,oneway4,diamond" if tier != 'quick' else "; fork, oneway3"),
                       T="trace length 1..3 (3 only up to 4 directed edges)" if tier != 'quick' else "T=2 (T=3 on fork/oneway3/line2, T=1 on line2)",
@@ -243,7 +395,7 @@ def main(tier):
         for c in r.get('candidates', []):
             rep.unconfirmed.append(f"{r['name']}: {c}")
     rep.extra['reachability_tags'] = tags
-    for need in ('empty', 'early_stop', 'complete'):
+    for need in ('empty', 'early_stop', 'complete', 'step_entries_2', 'step_two_predecessors_competed'):
         if not tags.get(need):
             rep.harness_errors.append(f"vacuity: no path reached outcome '{need}'")
     return rep.finish("symbolic execution of the real match() over an abstract map (SYMX, z3 linear/non-linear real arithmetic); "
